@@ -34,19 +34,24 @@ Proof.
 Qed.
 Print Assumptions C17_reported_noise_is_sum_of_consumed_increments.
 
-(* Replay from the recorded increments: result.dW of a trajectory, given to
-   PreSetWiener (shape test, heterodyne reshape, transposition), is accepted
-   and every request (t_k, N) inside the record returns the recorded
-   vectors, unscaled. *)
+(* Replay from a record: an array laid out like result.dW / result.measurement
+   of a trajectory (any number n of stochastic operators, any length, homodyne
+   (n, T) or heterodyne (n/2, 2, T) layout), given to PreSetWiener (shape
+   test, heterodyne reshape, transposition), is accepted, entry (k, i) of the
+   stored array is entry (i, k) of the record, every request (t_k, N) inside
+   the record returns the recorded vectors, and the only scaling applied is
+   the one flagged: by dt for a measurement record, and by 1/sqrt 2 as well
+   when heterodyne - exactly the scaling that
+   C17_measurement_record_determines_increments inverts entry by entry. *)
 Theorem C17_preset_replays_record :
-  forall (nl : list vec) n het,
+  forall (nl : list vec) n het meas,
     (forall v, In v nl -> length v = n) ->
     (het = true -> exists h, n = 2 * h) ->
     exists na p,
       res_dW nl n het = Some na /\
-      preset_init na (length nl) n het false = Some p /\
+      preset_init na (length nl) n het meas = Some p /\
       p_noise p = map (fun v => [v]) nl /\
-      p_scale_dt p = false /\ p_scale_isqrt2 p = false /\
+      p_scale_dt p = meas /\ p_scale_isqrt2 p = meas && het /\
       forall k N, k + N <= length nl ->
         p_dW p k N = Some (map (fun v => [v]) (slice nl k (k + N))).
 Proof. exact (preset_replays_record 0%Z). Qed.
